@@ -141,6 +141,8 @@ func BuildNode(n Node) any {
 			return AStack(s)
 		case "walias":
 			return WStack(s)
+		case "xalias":
+			return XStack(s)
 		case "ptr":
 			a := AStack(s)
 			return &a
@@ -153,6 +155,8 @@ func BuildNode(n Node) any {
 			return ACond(c)
 		case "walias":
 			return WCond(c)
+		case "xalias":
+			return XCond(c)
 		case "ptr":
 			a := ACond(c)
 			return &a
